@@ -125,6 +125,8 @@ PropsOf(sig, r) ==
   \o (IF Prefix(r.cfg.label, "subsets") THEN <<"C07">> ELSE <<>>)
   \o (IF OutOf(r).filter # <<>> THEN <<"C15">> ELSE <<>>)
   \o (IF Prefix(r.cfg.label, "faults") THEN <<"C16">> ELSE <<>>)
+  \* C05 (liveness on the real code): a parallel request must terminate with the right outcome, never hang, fail or crash
+  \o (IF Prefix(sig, "request_failed") \/ Prefix(sig, "panic") THEN <<"C05">> ELSE <<>>)
 RECURSIVE TagAll(_, _)
 TagAll(sigs, r) ==
   IF sigs = <<>> THEN <<>>
